@@ -29,6 +29,9 @@ def configs(tier, seed=0):
             out.append({'key': 'generic/%s/4x4/domain-%s' % (backing, dg), 'kind': 'generic', 'backing': backing, 'shape': [4, 4], 'domain': dg, 'range': 'cont'})
             if backing != 'sparse':
                 out.append({'key': 'generic/%s/4x4/range-%s' % (backing, dg), 'kind': 'generic', 'backing': backing, 'shape': [4, 4], 'domain': 'cont', 'range': dg})
+    # callables that return their argument or a view of it (identity, flip, sub-sampling): legal models whose output aliases the input buffer
+    for view, shape in [('identity', (4, 4)), ('flip', (4, 4)), ('subsample', (2, 4))]:
+        out.append({'key': 'generic/funview-%s/%dx%d' % ((view,) + shape), 'kind': 'generic', 'backing': 'funview', 'view': view, 'shape': list(shape), 'domain': 'cont', 'range': 'cont'})
     dims = [4, 5] if tier == 'quick' else [4, 5, 6, 8]
     for dim in dims:
         for psf in ['gauss', 'moffat', 'defocus', 'custom']:
@@ -129,6 +132,21 @@ def run(cfg, c):
             model = cuqi.model.LinearModel(A, range_geometry=rg, domain_geometry=dg)
         elif cfg['backing'] == 'sparse':
             model = cuqi.model.LinearModel(scipy.sparse.csr_matrix(A), range_geometry=rg, domain_geometry=dg)
+        elif cfg['backing'] == 'funview':
+            view = cfg['view']
+
+            def fw(v):
+                return v if view == 'identity' else (v[::-1] if view == 'flip' else v[::2])
+
+            def ad(w):
+                if view == 'identity':
+                    return w
+                if view == 'flip':
+                    return w[::-1]
+                z = np.zeros(n, dtype=np.asarray(w).dtype)
+                z[::2] = w
+                return z
+            model = cuqi.model.LinearModel(fw, ad, range_geometry=rg, domain_geometry=dg)
         else:
             def fw(v):
                 v = np.asarray(v)
